@@ -280,6 +280,11 @@ theorem c07_consistent_end (vs : List Bool) :
 theorem c07_equals_str (lit v : List Nat) : equalsStr lit v = true ↔ v = lit ∨ v = lit ++ [10] := by
   simp [equalsStr]
 
+/-- `all_equals('literal')`: accepts exactly the lists all of whose elements are the literal -/
+theorem c07_all_equals_str (lit : List Nat) (vs : List (List Nat)) :
+    allEqualsStr lit vs = true ↔ ∀ v ∈ vs, v = lit := by
+  simp [allEqualsStr]
+
 /-- non-vacuity: a range the constructor accepts with both marginal bands, and a marginal passing value -/
 example : ctorRejects ⟨.num (.fin 0), .num (.fin 10), .conv (.fin 2), .num (.fin 8)⟩ = false ∧
     inRange ⟨.num (.fin 0), .num (.fin 10), .conv (.fin 2), .num (.fin 8)⟩ (.fin 9) = .accept ∧
